@@ -53,10 +53,10 @@ def gen(ctx):
 def _args(ctx, mode):
     if mode == 'corr':
         if ctx.thorough():
-            return ['n=400', 'exhaustive=12', 'maxk=26', 'workers=14']
+            return ['n=1200', 'exhaustive=30', 'maxk=26', 'workers=14']
         return ['n=160', 'exhaustive=1', 'maxk=22', 'workers=14']
     if ctx.thorough():
-        return ['mode=search', 'n=600', 'workers=14']
+        return ['mode=search', 'n=2000', 'workers=14']
     return ['mode=search', 'n=220', 'workers=14']
 
 
